@@ -97,6 +97,30 @@ CHECKS = {
         note="The executed half (compiled module driven through PySession behaviours) is described in DESIGN.md and "
              "added when built; until then forwarding is judged on the generated text only.",
         design="6/C04"),
+    "C15": dict(
+        category="model_checking",
+        technique="TLA+ removal transformation (Variants!Removals, rendered by TLC) + relational replay: ignore vs "
+                  "remove vs original, both generators",
+        text="For every derived module TLC renders the module with one declaration removed; three real runs per "
+             "(module, declaration) are compared: pybind text with the class ignored must equal the text with the class "
+             "removed byte for byte, the registration events of the original minus the class's (or declaration's) "
+             "artefacts must equal those of the reduced module; MATLAB file trees are compared with gateway ids "
+             "canonicalised by rank.",
+        note="Only declarations whose name is unique in the module are judged (namesakes cannot be told apart in the "
+             "output). MATLAB ignore entries are spelled namespace::InstantiatedName as the generator expects.",
+        design="6/C15"),
+    "C16": dict(
+        category="model_checking",
+        technique="TLA+ Compose spec (Splits, module-level expectations, option correspondence; LawSplit asserted by "
+                  "TLC) + replay of splits into wrap / wrap_submodule / MatlabWrapper.wrap and of option sets into both "
+                  "scripts",
+        text="TLC distributes the top-level declarations of each derived module over 2-4 files (every single cut, "
+             "first+last, all cuts) and emits the expected initialiser declarations / invocations / definitions; the "
+             "harness writes the parts with varying final characters (no newline, trailing // or /* */ comment) and "
+             "checks main and additional units, MATLAB list-vs-single-file equality, and script-vs-API byte equality "
+             "for --top_module_namespaces / --ignore (absent, empty, one) / --is_submodule / --use-boost-serialization.",
+        note="Linking and importing the combined module is not part of the quick tier.",
+        design="6/C16"),
 }
 
 NOT_YET = "not yet built in this session; planned per DESIGN.md section 6"
